@@ -23,7 +23,7 @@ pub fn pick_len(rng: &mut Rng, subject: &str, big: bool) -> u64 {
 	// methods without a window accept every length up to PeriodType::MAX itself
 	let hi = if subject == "WSMA" { maxp / 2 } else if matches!(subject, "EMA" | "DMA" | "TMA" | "DEMA" | "TEMA" | "RMA") { maxp } else { maxp - 1 };
 	let n = if big {
-		*rng.pick(&[hi, hi - 1, 127.min(hi), 128.min(hi), 100.min(hi), 63, 64])
+		*rng.pick(&[hi, hi, hi - 1, 127.min(hi), 128.min(hi), 100.min(hi), 64])
 	} else {
 		match rng.below(10) {
 			0 => lo,
